@@ -209,4 +209,31 @@ def apply(facts, deny=None):
         nd = dict(d)
         nd["fns"] = [inl.inlined(fd["path"]) for fd in d["fns"]]
         out[crate] = nd
+    if inl.count:
+        # a helper whose every call site was replaced by its body lives on in its callers only: the standalone copy would be analysed
+        # out of context (its guard, lock or transaction is in the caller)
+        still_called = set()
+        for crate, d in out.items():
+            for fd in d["fns"]:
+                for b in fd["blocks"]:
+                    t = b["t"]
+                    if t.get("k") == "call":
+                        cal = t.get("callee", {})
+                        still_called.add(cal.get("resolved") or cal.get("path"))
+                    for s_ in b["s"]:
+                        for o in s_.get("o", []):
+                            c = o.get("c") if isinstance(o, dict) else None
+                            if isinstance(c, dict) and c.get("fn"):
+                                still_called.add(c["fn"])
+                    for a in t.get("args", []) if t.get("k") == "call" else []:
+                        c = a.get("c") if isinstance(a, dict) else None
+                        if isinstance(c, dict) and c.get("fn"):
+                            still_called.add(c["fn"])
+        inlined_somewhere = set()
+        for crate, d in out.items():
+            for fd in d["fns"]:
+                inlined_somewhere |= set(fd.get("inlined_from") or [])
+        for crate, d in out.items():
+            d["fns"] = [fd for fd in d["fns"] if not (fd["path"] in inlined_somewhere and fd["path"] not in still_called
+                                                      and inl.eligible(crate, inl.by_path[fd["path"]][1], crate))]
     return out, inl.count
